@@ -415,12 +415,14 @@ class Agent(dbus.service.Object):
             self._logger.debug('Performing TX step %5.1f: %s', step.order, step.name)
             try:
                 if step.action(ctr):
+                    # the step has taken over the bundle (e.g. sends it as fragments)
                     self._logger.debug('Step %5.1f interrupted the chain', step.order)
-                    break
+                    return
             except Exception as err:
+                # never transmit a bundle left behind by a failed step
                 self._logger.error('Step %5.1f failed with exception: %s', step.order, err)
                 self._logger.debug('%s', traceback.format_exc())
-                break
+                raise
 
         if ctr.route and not ctr.sender:
             # Assume the route is a TxRouteItem
